@@ -493,17 +493,18 @@ PROPS["C02"] = dict(
 PROPS["C03"] = dict(
     module="TmcgProps.C03",
     areas=ZK_AREAS,
-    obligations=[("Tmcg.C03.nizk_complete", "full"), ("Tmcg.C03.cp_complete", "full"), ("Tmcg.C03.mask_complete", "full"),
+    obligations=[("Tmcg.C03.stackeq_complete", "full"), ("Tmcg.C03.mix_glue", "full"),
+                 ("Tmcg.C03.nizk_complete", "full"), ("Tmcg.C03.cp_complete", "full"), ("Tmcg.C03.mask_complete", "full"),
                  ("Tmcg.C03.remask_complete", "full"), ("Tmcg.C03.decrypt_complete", "full"),
                  ("Tmcg.C03.or_first_complete", "full"), ("Tmcg.C03.or_second_complete", "full"),
                  ("Tmcg.C03.key_interactive_complete", "full")],
     predicate=pred_c03,
-    level_text="Completeness theorems in Lean 4 for the VTMF's proofs of knowledge (key NIZK, Chaum-Pedersen in both modes, masking, re-masking, decryption, OR, interactive key proof): "
+    level_text="Completeness theorems in Lean 4 for the VTMF's proofs of knowledge (key NIZK, Chaum-Pedersen in both modes, masking, re-masking, decryption, OR, interactive key proof) and for the cut-and-choose proof of stack equality (shuffle and rotation, every size 1..TMCG_MAX_CARDS, every number of rounds and challenge bits, through the text codec): "
                "for every valid group, witness, coin and hash the model verifier accepts the model prover's transcript. Prover and verifier of the real library are each compared "
                "separately with the model (same coins, same oracle answers, byte-identical hash queries). Partial: Groth/Hoogh shuffle arguments, Rabin key proofs, Pedersen/JL protocols are covered by correspondence only so far.",
     level_note=LEVEL_NOTE,
     trusted=ZK_TRUST,
-    assumptions=["partial: completeness theorems exist for the discrete-log VTMF proofs; cut-and-choose stack equality, Groth, VRHE, Rabin-key and commitment protocols: correspondence (real prover -> real verifier, and each vs model where modelled) only"],
+    assumptions=["partial: completeness theorems exist for the discrete-log VTMF proofs; Groth, VRHE, Rabin-key and commitment protocols: correspondence (real prover -> real verifier, and each vs model where modelled) only"],
 )
 PROPS["C08"] = dict(
     module="TmcgProps.C08",
@@ -549,17 +550,22 @@ PROPS["C09"] = dict(
 PROPS["C04"] = dict(
     module="TmcgProps.C04",
     areas=ZK_AREAS,
-    obligations=[("Tmcg.C04.cp_special_sound", "full"), ("Tmcg.C04.schnorr_special_sound", "full"),
+    obligations=[("Tmcg.C04.stackeq_round_extract", "full"), ("Tmcg.C04.stackeq_two_challenges", "full"),
+                 ("Tmcg.C04.stackeq_soundness_bound", "full"), ("Tmcg.C04.stackeq_soundness_prob", "full"),
+                 ("Tmcg.C04.cp_special_sound", "full"), ("Tmcg.C04.schnorr_special_sound", "full"),
                  ("Tmcg.C04.cp_wrong_witness", "full"), ("Tmcg.C04.cpVerify_accept_iff", "full"),
                  ("Tmcg.C04.nizkVerify_accept_iff", "full")],
     predicate=pred_c04,
     level_text="Soundness reductions in Lean 4 for the VTMF sigma protocols: special soundness (two answers give the witness, in particular equal logarithms), "
                "the honest algorithm with a non-fitting witness is accepted only on an explicit hash collision or for one challenge residue class, and the verifiers' exact decision logic. "
                "The correspondence run plays non-fitting provers (unequal logs, re-typed mask, wrong-key share, substituted/duplicated card, non-cyclic permutation as rotation) against the real verifiers with served verifier coins "
-               "and replays the exact cut-and-choose statement (a false statement survives exactly the rounds whose challenge the prover can answer). Partial: the 2^-kappa counting theorem for cut-and-choose and knowledge soundness of the Groth/Hoogh arguments are not proved in Lean.",
+               "and replays the exact cut-and-choose statement (a false statement survives exactly the rounds whose challenge the prover can answer). "
+               "Cut-and-choose: if one commitment can be opened for both challenge bits, a re-masking (cyclic) permutation relating the two stacks is extracted or an explicit hash collision exhibited; hence for a false statement, "
+               "any commitments and ANY response strategy at most one of the 2^kappa challenge vectors is accepted (probability <= 2^-kappa; proving this exposed finding F26). "
+               "Partial: knowledge soundness of the Groth/Hoogh arguments is not proved in Lean.",
     level_note=LEVEL_NOTE + " Hash collision resistance and hardness of discrete logs are assumptions named in the theorem statements (explicit Collision disjunct).",
     trusted=ZK_TRUST,
-    assumptions=["partial: cut-and-choose exactness checked on the implementation (served coins), not yet a Lean theorem; Groth/VRHE knowledge soundness not attempted",
+    assumptions=["partial: Groth/VRHE knowledge soundness not attempted; the 2^-kappa bound assumes no hash collision among stack texts (explicit hypothesis NoStackCollision)",
                  "collision resistance of the hash (explicit disjunct), discrete-log hardness"],
 )
 PROPS["C05"] = dict(
